@@ -549,6 +549,40 @@ func (h *harness) genRun(id int) (c caseT, obs []obsT, log []evT, marks []int) {
 	for i, ru := range c.Rules {
 		rules = append(rules, toRule(res, i, ru))
 	}
+	// Two cases in three start from a reload (no traffic in between, so the model is unchanged): a
+	// sibling list in which exactly one field of the first rule differs is in force first, then the
+	// case's rules replace it.  A reload that kept the stale breaker (rule equality ignoring a field)
+	// shows in the decisions that follow.
+	if id%3 != 0 && len(rules) > 0 {
+		sib := make([]*circuitbreaker.Rule, len(rules))
+		for i, ru := range rules {
+			cp := *ru
+			sib[i] = &cp
+		}
+		switch (id / 3) % 6 {
+		case 0:
+			sib[0].MaxAllowedRtMs = sib[0].MaxAllowedRtMs*4 + 50
+		case 1:
+			if sib[0].Strategy == circuitbreaker.ErrorCount {
+				sib[0].Threshold = sib[0].Threshold*3 + 5
+			} else if sib[0].Threshold > 0.5 {
+				sib[0].Threshold = sib[0].Threshold / 4
+			} else {
+				sib[0].Threshold = sib[0].Threshold*2 + 0.25
+			}
+		case 2:
+			sib[0].RetryTimeoutMs = sib[0].RetryTimeoutMs*3 + 1000
+		case 3:
+			sib[0].MinRequestAmount = sib[0].MinRequestAmount*5 + 7
+		case 4:
+			sib[0].ProbeNum = sib[0].ProbeNum + 3
+		case 5:
+			sib[0].StatIntervalMs = sib[0].StatIntervalMs * 2
+		}
+		if _, err := circuitbreaker.LoadRulesOfResource(res, sib); err != nil {
+			panic(fmt.Sprintf("case %d: LoadRulesOfResource (sibling): %v", id, err))
+		}
+	}
 	if _, err := circuitbreaker.LoadRulesOfResource(res, rules); err != nil {
 		panic(fmt.Sprintf("case %d: LoadRulesOfResource: %v", id, err))
 	}
